@@ -239,7 +239,10 @@ def check_graph(n, tv, exp, seed, stack_every=True):
                 mism.append(_mm("case", "rings", [f for f in want if want[f] != obs[f]], n, rows, how,
                                 want, obs, rings=rings))
             if exp["mu"] > 0 or rings:
-                events.append({"n": n, "rows": before, "out": rings, "hist": exp["hist"]})
+                # the ring sizes are judged by TLC (S2b) together with validity / independence;
+                # `must` marks the answers whose sizes differ from the model's minimum sizes
+                events.append({"n": n, "rows": before, "out": rings,
+                               "must": len_hist(rings, n) != exp["hist"]})
         if arr_rows(bl) != before or atoms.bonds is not bl:
             mism.append(_mm("case", "rings", ["untouched"], n, rows, how, before, arr_rows(bl)))
         if k > 1:
@@ -427,7 +430,7 @@ def exec_path(item):
                 key = json.dumps([sorted(obs["rows"]), rings])
                 if key not in seen:
                     seen.add(key)
-                    events.append({"n": n, "rows": obs["rows"], "out": rings, "hist": exp["hist"]})
+                    events.append({"n": n, "rows": obs["rows"], "out": rings, "must": got["hist"] != want["hist"]})
     return {"mismatch": mism[:20], "events": events, "steps": steps, "calls": calls}
 
 
@@ -684,14 +687,24 @@ def _ring_traces(events):
     return traces, index
 
 
-def _judge_rings(ctx, events, stage):
-    """All distinct ring answers -> TLC; mismatches become records of kind rings_judged."""
+def _judge_rings(ctx, events, stage, cap=None):
+    """Distinct ring answers -> TLC; mismatches become records of kind rings_judged.  Every
+    answer whose sizes differ from the model's minimum sizes is judged; of the others all (quick)
+    or a seeded sample of `cap` (thorough: their count, ring bonds, ring atoms and sizes already
+    agree with the model's values)."""
     seen, uniq = set(), []
     for e in events:
         key = json.dumps([e["n"], e["rows"], e["out"]])
         if key not in seen:
             seen.add(key)
             uniq.append(e)
+    uniq.sort(key=lambda e: json.dumps([e["n"], e["rows"], e["out"]]))
+    must = [e for e in uniq if e.get("must")]
+    rest = [e for e in uniq if not e.get("must")]
+    ctx.cov["ring_answers_distinct"] = len(uniq)
+    if cap is not None and len(rest) > cap:
+        rest = ctx.rng.sample(rest, cap)
+    uniq = must + rest
     traces, index = _ring_traces(uniq)
     mms, shapes = _validate(ctx, traces, stage)
     for m in mms:
@@ -1007,7 +1020,7 @@ def run(ctx):
         raise Vacuity("remove_aromaticity never changed a state of the machine")
 
     # ---- S2b: every ring answer judged by TLC --------------------------------------------
-    nuniq, ntr, shapes = _judge_rings(ctx, ring_events, "S2b")
+    nuniq, ntr, shapes = _judge_rings(ctx, ring_events, "S2b", cap=None if quick else 20000)
     ctx.cov["ring_answers_judged"] = nuniq
     ctx.cov["ring_answer_graphs"] = ntr
     ctx.cov["ring_answers_differing_from_traversal_model"] = shapes
